@@ -300,6 +300,17 @@ func AtomUnits() []*Unit {
 			b.Msg("ITEM").F("b", 1, Int32, Optional)
 			us = append(us, b.Unit())
 		}
+		{
+			// more than two messages taking part in one file-name collision
+			b := NewUnit(p+"casename3", syntax, "casename3").Atom("three-way-file-name-collisions")
+			b.Msg("Foo").F("a", 1, Int32, Optional)
+			b.Msg("FOO").F("b", 1, Int32, Optional)
+			b.Msg("FoO").F("c", 1, Int32, Optional)
+			b.Msg("Inner").F("d", 1, Int32, Optional)
+			b.Msg("A").Nested("Inner").F("e", 1, Int32, Optional)
+			b.Msg("B").Nested("Inner").F("f", 1, Int32, Optional)
+			us = append(us, b.Unit())
+		}
 	}
 	// ---- proto3 optional (protoc-gen-go only)
 	{
@@ -347,6 +358,18 @@ func AtomUnits() []*Unit {
 	}
 	// ---- proto2 extensions, one unit per family so that a failing family takes nothing else down
 	// ---- required fields only in nested messages; equally named nested messages of which only one has required fields
+	{
+		// required fields that declare a default value: the default is what a getter returns, not a value on the wire
+		b := NewUnit("p2reqdefault", "proto2", "required-default").Atom("required-fields-with-defaults")
+		col := addColorEnum(b)
+		rec := b.Msg("Rec")
+		rec.F("name", 1, String, Required).F("level", 2, Int32, Required).Default("7", false)
+		rec.F("label", 3, String, Required).Default("none", false).F("on", 4, Bool, Required).Default("true", false)
+		rec.FEnum("tint", 5, col.Full(), Required).Default("GREEN", false).F("note", 6, String, Optional)
+		outer := b.Msg("Outer")
+		outer.FMsg("rec", 1, rec.Full(), Optional).FMsg("recs", 2, rec.Full(), Repeated).F("id", 3, Int32, Optional)
+		us = append(us, b.Unit())
+	}
 	{
 		b := NewUnit("p2reqnested", "proto2", "required-nested").Atom("required-only-in-nested-messages")
 		o := b.Msg("Outer")
@@ -444,6 +467,17 @@ func AtomUnits() []*Unit {
 		h.Ext("x_tint", 104, Enum, Optional, col.Full(), base.Full()).Default("GREEN", true)
 		h.Ext("x_big", 105, Uint64, Optional, "", base.Full()).Default("18446744073709551615", true)
 		h.Ext("x_plain", 106, Int32, Optional, "", base.Full())
+		us = append(us, b.Unit())
+	}
+	{
+		// extend blocks declared two and three levels deep
+		b, base := extUnit("p2extdeep", "ext-deep", "extension-declared-in-deeply-nested-message")
+		h := b.Msg("Holder")
+		deep := h.Nested("Deep")
+		deep.Ext("deep_int", 100, Int32, Optional, "", base.Full()).Ext("deep_tags", 101, String, Repeated, "", base.Full())
+		deeper := deep.Nested("Deeper")
+		deeper.Ext("deeper_fix", 102, Fixed64, Optional, "", base.Full())
+		deeper.F("z", 1, Int32, Optional)
 		us = append(us, b.Unit())
 	}
 	{
